@@ -34,6 +34,14 @@ claimed = {
    text="Deterministic simulation: a generated session mixing 9/11-byte messages, Twrite up to msize-1 and messages of exactly msize, with msize 96..4096 so the 8 x msize receive buffer is replaced many times, is delivered to the server's receive loop one byte per read, 1..3 bytes, randomly, coalesced, or with exactly one split point enumerated by run index; expected invocations (arguments, payload hash re-checked when the implementation answers later) and replies are a function of the stream, so every run is checked absolutely. The client's receive loop is fed a scripted reply stream under the same policies.",
    note="Trusts the instrumenter, the simulated transport (read sizes are scheduler decisions) and the harness codec.",
    technique="deterministic simulation: transport read sizes as seeded scheduler decisions incl. enumerated split points; stream-function oracle"),
+ "C04": dict(level="exploration", ref="§4 C04/C05",
+   text="Deterministic simulation with a reference fid-table model: generated histories (model-aware, so they stay in interesting states) over a small set of fid numbers incl. NOFID, on one or two connections sharing the numbers, every message type with implementation success or error, full / partial / failing / zero-name / in-place walks, with and without AuthOps, both dialects. Each reply, each implementation call and each FidDestroy is compared with the model request by request under seeded schedules (the next request is sent the moment the previous reply is readable), and every fid number is probed at the end.",
+   note="Trusts the instrumenter, simulated transport, harness codec and the reference model (a map per connection; transitions as the statement lists them). Requests are issued one at a time per history; pipelined histories are covered by C03/C07/C08. afid == fid in Tattach is not generated (ambiguous).",
+   technique="deterministic simulation: model-based histories against an executable reference fid-table model; invocation-log + wire oracle"),
+ "C05": dict(level="exploration", ref="§4 C04/C05",
+   text="Same harness as C04 with the rule set of C05: for every (fid state, request) pair reached, a request that breaks a fid-state rule (walk from an open fid / by name from a non-directory, open of an open fid or of a directory not for reading, create through a non-directory or open fid or of a special file without .u, write through a fid not open for writing or a directory, read/write counts above msize-IOHDRSZ incl. 2^31 and 2^32-24..2^32-1) must be refused without any implementation call; every other request must be forwarded exactly once with the bound fid object, user and the arguments sent, its reply must equal what the implementation produced, and an attach reaches the implementation only after exactly one accepting AuthCheck when AuthOps is present.",
+   note="As C04. Twrite counts above msize-23 cannot be expressed in a well-formed frame and are therefore only exercised for Tread.",
+   technique="deterministic simulation: model-based histories against an executable reference model; refusal-before-forward and exactly-once-forward oracle over the invocation log"),
 }
 na = {
  "C01": "pure function of (fields, dialect): no schedule, clock, fault or interleaving; deterministic simulation does not apply (DESIGN.md §1)",
